@@ -31,3 +31,43 @@ def nvScan (alpha : Rat) : List Rat → Rat → Nat → Nat
 def nvOpt (pmf : List Rat) (h b : Rat) : Nat := nvScan (b / (b + h)) pmf 0 0
 
 end Stockpyl.Loss
+
+namespace Stockpyl.Loss
+open Stockpyl
+
+/-- cdf of the finite pmf at integer `x ≥ 0`: `F(x) = Σ_{d ≤ x} p_d`. -/
+def cdfAt (p : List Rat) (x : Nat) : Rat := expect p fun d => if d ≤ x then 1 else 0
+
+/-- Second-order loss functions of a discrete distribution (factorial-moment variants,
+loss_functions.py:discrete_second_loss, pmf branch). -/
+def loss2 (p : List Rat) (x : Int) : Rat :=
+  (1/2) * expect p fun d => if x ≤ (d : Int) then (((d : Int) - x : Int) : Rat) * ((((d : Int) - x - 1 : Int)) : Rat) else 0
+def loss2bar (p : List Rat) (x : Int) : Rat :=
+  (1/2) * expect p fun d => if (d : Int) ≤ x then ((x - (d : Int) : Int) : Rat) * ((x + 1 - (d : Int) : Int) : Rat) else 0
+
+def secondMoment (p : List Rat) : Rat := expect p fun d => (d : Rat) * (d : Rat)
+
+/-- `discrete_loss(x, distrib)` (cdf branch): `n̄ = Σ_{y=0}^{x−1} F(y)`, `n = n̄ − x + E`. -/
+def lossNbarCdf (p : List Rat) (x : Nat) : Rat := lsum ((List.range x).map (cdfAt p))
+
+/-! Closed forms as functions of the SciPy primitives `f = pmf/pdf(x)`, `F = cdf(x)` -/
+
+def poissonLoss (x mu f F : Rat) : Rat × Rat := (-(x - mu) * (1 - F) + mu * f, (x - mu) * F + mu * f)
+def poissonLoss2 (x mu f F : Rat) : Rat × Rat :=
+  ((1/2) * (((x - mu) * (x - mu) + x) * (1 - F) - mu * (x - mu) * f), (1/2) * (((x - mu) * (x - mu) + x) * F + mu * (x - mu) * f))
+def stdNormalLoss (z phi Phi : Rat) : Rat × Rat := (phi - z * (1 - Phi), z + (phi - z * (1 - Phi)))
+def stdNormalLoss2 (z phi Phi : Rat) : Rat × Rat :=
+  let l2 := (1/2) * ((z * z + 1) * (1 - Phi) - z * phi)
+  (l2, (1/2) * (z * z + 1) - l2)
+def normalLoss (x mean sd phi Phi : Rat) : Rat × Rat :=
+  let l := stdNormalLoss ((x - mean) / sd) phi Phi
+  (sd * l.1, sd * l.2)
+def negBinLoss (x r beta mean f F : Rat) : Rat × Rat :=
+  let n := -(x - r * beta) * (1 - F) + (x + r) * beta * f
+  (n, x - mean + n)
+def gammaLoss (x a b f F : Rat) : Rat × Rat :=
+  let n := ((a - x / b) * (1 - F) + x * f) * b
+  (n, x - a * b + n)
+def uniformLoss (x a b : Rat) : Rat × Rat := ((b - x) * (b - x) / (2 * (b - a)), (x - a) * (x - a) / (2 * (b - a)))
+
+end Stockpyl.Loss
